@@ -3,7 +3,9 @@
     configuration must be refuted: vacuity control).  (ii) TTIndex.tla: the index lemma for every table size, discharged by Apalache
     (unbounded integers).  (iii) the real table: concurrent hammer on few buckets with catalogue units (every distinct probe result
     must be a catalogue unit for that key), index records for many sizes incl. the reduced size with a resident tablebase checked against
-    the same formula, mate-score ply shift, tablebase region untouched by hash traffic - all validated by TLC (Tr_TT.tla)."""
+    the same formula, mate-score ply shift, tablebase region untouched by hash traffic - all validated by TLC (Tr_TT.tla).
+(iv) TBLife.tla: life cycle of the on-demand tablebase inside the table (updateTB / clear / reSize / hash traffic), invariants exhausted by TLC, two defect
+    switches refuted; random call histories on one real table object judged by Tr_TBLife.tla with the model stepped alongside."""
 import json
 import os
 import subprocess
@@ -50,6 +52,21 @@ def run(tier, seed):
     rep.cov["insert_model_refutes_key_set_before_move_test"] = bool(rj.violated)
     if rj.violated != "MoveBelongsToKey":
         raise vlib.ToolFailure("vacuity control failed: TTInsert with SetKeyFirst=TRUE was not refuted")
+    # (i'') life cycle of the on-demand tablebase inside the table: design invariants, two defect switches that must be refuted
+    rl = vlib.tlc("TBLife.tla", "MC_TBLife.cfg", os.path.join(wd, "life"), workers=4, timeout=600)
+    if not rl.ok:
+        if rl.violated:
+            rep.violation("design:TBLife:" + rl.violated, f"TBLife.tla violates {rl.violated}", files=[os.path.join(wd, "life", "tlc.out")])
+        else:
+            raise vlib.ToolFailure("TBLife.tla: " + rl.out[-800:])
+    rep.add("states", rl.distinct)
+    rep.add("transitions", rl.generated)
+    for cfgname, inv, covkey in (("MC_TBLife_noreset.cfg", "ResidentIntact", "life_model_refutes_handle_kept_after_abort"),
+                                 ("MC_TBLife_clearsize.cfg", "FreshAfterClear", "life_model_refutes_clear_keeping_reduced_size")):
+        rx = vlib.tlc("TBLife.tla", cfgname, os.path.join(wd, "lifed"), workers=4, timeout=600)
+        rep.cov[covkey] = rx.violated == inv
+        if rx.violated != inv:
+            raise vlib.ToolFailure(f"vacuity control failed: TBLife with {cfgname} was not refuted by {inv}")
     # (ii) index lemma
     try:
         p = subprocess.run(["apalache-mc", "check", "--length=0", "--inv=IndexSafe", "--init=Init", "--next=Next", f"--out-dir={wd}/apalache",
@@ -65,8 +82,8 @@ def run(tier, seed):
     # (iii) real table
     h = os.path.join(bdir, "h_tt")
     jobs = [("hammer", [str(seed * 10 + i), str(t), str(e), str(sz["deci"])]) for i, (t, e) in enumerate(sz["combos"])]
-    jobs += [("index", [str(seed)]), ("misc", [str(seed)])]
-    files, infos = [], []
+    jobs += [("index", [str(seed)]), ("misc", [str(seed)]), ("life", [str(seed), "200" if tier == "quick" else "4000"])]
+    files, infos, lifefiles = [], [], []
     # hammer runs use many threads each: run them one after another, the cheap ones last
     for k, (mode, args) in enumerate(jobs):
         out = os.path.join(wd, f"tt_{mode}_{k}.ndjson")
@@ -74,9 +91,19 @@ def run(tier, seed):
         if pr.returncode != 0:
             rep.violation(f"harness-crash:{mode}", f"h_tt {mode} {args} exited {pr.returncode}: {pr.stderr[-400:]}")
             continue
-        files.append(out)
+        (lifefiles if mode == "life" else files).append(out)
         infos.append(json.loads(pr.stdout.strip().split("\n")[-1]))
     vlib.linear_check(rep, SPEC, CFG, DIAG, files, wd)
+    # call histories of the tablebase life cycle: judged rules by Tr_TBLife; the design model TBLife.tla is stepped alongside and a
+    # difference between its projection and the logged state is counted as drift (recorded, not a verdict)
+    vlib.linear_check(rep, "Tr_TBLife.tla", "Tr_TBLife.cfg", "Tr_TBLife_diag.cfg", lifefiles, wd, context_marker='{"e":"Reset"')
+    drift = 0
+    for lf in lifefiles:
+        rd = vlib.tlc("Tr_TBLife.tla", "Tr_TBLife.cfg", os.path.join(wd, "lifedrift"), env={"TRACE": lf}, timeout=1500)
+        drift += sum(1 for p_ in rd.prints if "DRIFT" in p_)
+    rep.cov["life_records"] = sum(i.get("life_records", 0) for i in infos)
+    rep.cov["life_histories"] = sum(i.get("life_histories", 0) for i in infos)
+    rep.cov["life_model_drift_records"] = drift
     st = sum(i.get("stores", 0) for i in infos)
     pb = sum(i.get("probes", 0) for i in infos)
     rep.cov.update({"hammer_runs": len(sz["combos"]), "hammer_stores": st, "hammer_probes": pb, "hammer_hits": sum(i.get("hits", 0) for i in infos),
